@@ -12,6 +12,7 @@ import YashModel.Arith.Spell
 import YashModel.Arith.CauseLemmas
 import YashModel.Arith.UnicodeLemmas
 import YashModel.Arith.TableLemmas
+import YashModel.Arith.TraceLemmas
 namespace YashModel.Arith
 open YashModel.Generated.ArithTables
 
@@ -899,5 +900,44 @@ example : (match evalStrG shellI false "1 + 08".toList { ctxs := [[]], nounset :
       | .error (.syntax .tokenError) => true | _ => false) = true ∧
     refineTokenErr "1 + 08".toList (.syntax .tokenError) = .token .invalidNumericConstant ∧
     refineTokenErr "1 + #".toList (.syntax .tokenError) = .token .invalidCharacter := by decide +kernel
+
+/-! ## wave 3, third pass: the variables after a failing evaluation -/
+
+/-- ☆ "assignments made before the failing operation persist".  `evalF` is `eval` with the variable map threaded
+    through every outcome (the map at the moment the evaluation stopped): (1) its value part IS `eval`, for every
+    vector and fuel, so it adds nothing to what is proved about values; (2) after an `Ok` it is the map inside the
+    `Ok`; (3) when the right operand of a non-lazy operator fails after the left one returned, the map is the one
+    the right operand stopped in, STARTED from the map the left operand left behind — nothing is rolled back;
+    (4) when the operation itself fails (overflow, division by zero, bad shift, assignment to a value, unreadable
+    operand) the map holds everything both operands assigned; (5) a syntax error or a `portable` rejection
+    leaves the map untouched (nothing was evaluated). -/
+theorem assignments_before_failure_persist (f : Nat) (lhs rhs ast : List Ast) (op : BinaryOperator)
+    (env env1 env2 envE : Env) (lt rt t : Term) (err : EvalErr) (extra src : List Char) :
+    (evalF f ast env).1 = eval f ast env ∧
+    ((evalF f ast env).1 = .ok (t, env1) → (evalF f ast env).2 = env1) ∧
+    (op ≠ .LogicalOr → op ≠ .LogicalAnd → (evalF f lhs env).1 = .ok (lt, env1) →
+      evalF f rhs env1 = (.error err, envE) →
+      evalF (f + 1) (lhs ++ rhs ++ [.binary op rhs.length]) env = (.error err, envE)) ∧
+    (op ≠ .LogicalOr → op ≠ .LogicalAnd → (evalF f lhs env).1 = .ok (lt, env1) →
+      (evalF f rhs env1).1 = .ok (rt, env2) → applyBinary lt rt op env2 = .error err →
+      evalF (f + 1) (lhs ++ rhs ++ [.binary op rhs.length]) env = (.error err, env2)) ∧
+    ((∃ e, parseU extra src = .error e) → envAfterU extra false src env = env) ∧
+    ((∃ a, parseU extra src = .ok a ∧ a.any isIncDec = true) → envAfterU extra true src env = env) := by
+  refine ⟨evalF_fst f ast env, evalF_envOk f ast env t env1,
+    fun h1 h2 hl hr => evalF_right_fails f lhs rhs op env env1 envE lt err h1 h2 hl hr,
+    fun h1 h2 hl hr ha => evalF_apply_fails f lhs rhs op env env1 env2 lt rt err h1 h2 hl hr ha, ?_, ?_⟩
+  · rintro ⟨e, he⟩; simp [envAfterU, he]
+  · rintro ⟨a, ha, hi⟩; simp [envAfterU, ha, hi]
+
+/-- `(x=1)+(1/0)` fails with x = 1 in the map; `j + (x=5)` with an unreadable `j` fails AFTER x = 5 was assigned
+    (the left value is read last); `0 && (x=5)` and a syntax error leave the map alone -/
+example :
+    envAfterU [] false "(x=1)+(1/0)".toList [] = [(['x'], ['1'])] ∧
+    evalStr "(x=1)+(1/0)".toList [] = .evalError .divisionByZero ∧
+    envAfterU [] false "j + (x=5)".toList [(['j'], "junk".toList)] = [(['j'], "junk".toList), (['x'], ['5'])] ∧
+    envAfterU [] false "(x=5) + j".toList [(['j'], "junk".toList)] = [(['j'], "junk".toList), (['x'], ['5'])] ∧
+    envAfterU [] false "(1/0) + (x=5)".toList [] = [] ∧
+    envAfterU [] false "(x=2) +".toList [] = [] ∧ envAfterU [] true "(x=2) + y++".toList [] = [] := by
+  decide +kernel
 
 end YashModel.Arith
